@@ -38,7 +38,7 @@ def weight_one_hot(N, r=None, nsymbols=2):
         nsymbols = [nsymbols] * N
     assert len(nsymbols) == N
     if r is None:
-        r = N + 1
+        r = sum(ns - 1 for ns in nsymbols) + 1  # Every reachable sum gets its own position
 
     cores = []
     for n in range(N):
